@@ -166,6 +166,58 @@ def check_filter(chk: Check, repo: Repo) -> None:
     chk.rule("E7 truth-table extraction of GatewayScanFilter.match vs the oracle formula over all cells")
 
 
+def check_scanner(chk: Check, repo: Repo) -> None:
+    """A plain SearchResponse cannot carry the secured-service-families DIB, so a descriptor built from it always says
+    "secure not required".  For a device that announces Core v2 (which answers the extended search with the full
+    description) the plain response therefore never becomes a descriptor — whatever else is known at that moment,
+    e.g. whether its extended response has already arrived."""
+    fi = repo.func(GS, "GatewayScanner._response_rec_callback")
+    chk.unit(fi)
+    cfg = CFG(fi.node)
+    exc = ExcTable(repo)
+    st = "xknx.knxip.knxip_enum:KNXIPServiceType"
+    p0 = fi.node.args.args[1].arg
+    n_cells = 0
+    for svc, has_dib, core2 in product(("SEARCH_RESPONSE", "SEARCH_RESPONSE_EXTENDED"), (False, True), (False, True)):
+        if not has_dib and core2:
+            continue
+        n_cells += 1
+        dib = Obj("DIBSuppSVCFamilies", "d")
+        box: dict = {}
+
+        def cm(c, env, has_dib=has_dib, core2=core2):
+            n = call_name(c)
+            if n == "next":
+                return [Outcome(None, dib if has_dib else None)]
+            if isinstance(c.func, ast.Attribute) and c.func.attr == "supports" and box["am"].ev(c.func.value, env, {}) == dib:
+                return [Outcome(None, core2)]
+            if n == "GatewayDescriptor":
+                return [Outcome("DESCRIPTOR", Obj("GatewayDescriptor", "g"))]
+            if n.endswith(".parse_dibs") or n.startswith("logger.") or n == "repr" or n.endswith("put_nowait") or n.endswith("_response_received_event.set"):
+                return [Outcome(None, None)]
+            if n.endswith("scan_filter.match"):
+                return [Outcome(None, True)]
+            if n == "len":
+                return [Outcome(None, 1)]
+            return None
+
+        def hook(e, env):
+            if isinstance(e, ast.Attribute):
+                v = repo.fold(e, fi.module, fi.cls)
+                if isinstance(v, EnumMember):
+                    return v
+            return UNKNOWN
+        am = AbsMachine(cfg, exc, cm, hook)
+        am.isinstance_fn = class_isinstance(repo)
+        box["am"] = am
+        env = {f"{p0}.body": Obj("SearchResponse" if svc == "SEARCH_RESPONSE" else "SearchResponseExtended", "b"), f"{p0}.header.service_type_ident": EnumMember(st, svc), "self.stop_on_found": None, "queue": None}
+        paths = Explorer(cfg, repo, am.step).run(cfg.entry, [], env)
+        got = {"DESCRIPTOR" in p.env.get("trace", ()) for p in paths}
+        want = {not (svc == "SEARCH_RESPONSE" and core2)}
+        chk.ob("plain-search-response-of-a-core-v2-device-is-never-used", fi.site(), got == want, f"{svc}, supported-families DIB {'present' if has_dib else 'absent'}, core v2 {core2}: descriptor built on {sorted(got)} of the paths; reference {sorted(want)}", key=f"scanner|{svc}|{has_dib}|{core2}")
+    chk.count("scanner response cells", n_cells)
+
+
 def check_parse_dibs(chk: Check, repo: Repo) -> None:
     fi = repo.func(GS, "GatewayDescriptor.parse_dibs")
     chk.unit(fi)
@@ -194,7 +246,12 @@ def check_parse_dibs(chk: Check, repo: Repo) -> None:
             src = ast.unparse(w.stmt.value)
             fam_ok = True
             if attr.endswith("requires_secure") or attr == "supports_routing":
-                fam_ok = f"DIBServiceFamily.{fam}" in src
+                # exactly what that DIB says about the family: no other descriptor state (which would make the
+                # flag depend on the order the DIBs arrive in) enters the value
+                reads_self = sorted({ast.unparse(x) for x in ast.walk(w.stmt.value) if isinstance(x, ast.Attribute) and isinstance(x.value, ast.Name) and x.value.id == "self"})
+                v_ = w.stmt.value
+                plain = isinstance(v_, ast.Call) and isinstance(v_.func, ast.Attribute) and v_.func.attr == "supports" and [ast.unparse(a) for a in v_.args] == [f"DIBServiceFamily.{fam}"] and not v_.keywords
+                fam_ok = f"DIBServiceFamily.{fam}" in src and not reads_self and plain
             elif attr == "supports_tunnelling":
                 fam_ok = any(f"DIBServiceFamily.{fam}" in t and v for t, v in facts)
             elif attr == "supports_tunnelling_tcp":
@@ -214,5 +271,6 @@ def run(chk: Check, repo: Repo) -> None:
     check_automatic(chk, repo)
     check_filter(chk, repo)
     check_parse_dibs(chk, repo)
+    check_scanner(chk, repo)
     chk.assume("tri-state None of *_requires_secure means 'not announced as secured' (treated as falsy, as the code does)")
     chk.assume("manual connection types (explicit user configuration) are outside C46")
